@@ -135,6 +135,12 @@ def classify_doc(b: bytes) -> Tuple[str, Dict[str, Any]]:
 def reference(sc: Dict[str, Any]) -> Dict[str, Any]:
     """What the statement demands for this scenario."""
     qtext = sc["query_effective"]
+    if qtext is None:
+        try:
+            sc["files"]["/q.jsonpath"].encode("latin-1").decode("utf-8")
+        except UnicodeDecodeError:
+            return {"expect": "fail", "phase": "query-file", "why": "query file is not valid UTF-8"}
+        qtext = sc["files"]["/q.jsonpath"].encode("latin-1").decode("utf-8").strip()
     try:
         path = jp.JSONPathEnvironment().compile(qtext)
     except Exception as exc:  # noqa: BLE001
@@ -294,11 +300,24 @@ def gen_scenario(rng) -> Dict[str, Any]:
         pad_l = rng.choice(("", "\n", "  ", "\n\n \t"))
         pad_r = rng.choice(("", "\n", "\n\n", " \n"))
         body = qtext
-        if rng.random() < 0.15 and body:
+        r2 = rng.random()
+        if r2 < 0.15 and body:
             qfile_fault = "truncated"
             body = body[: rng.randrange(len(body))]
-        files["/q.jsonpath"] = (pad_l + body + pad_r).encode("utf-8")
+        raw = (pad_l + body + pad_r).encode("utf-8")
         query_effective = (pad_l + body + pad_r).strip()
+        if 0.15 <= r2 < 0.22:
+            # stored bytes of the query file are not UTF-8: the query is undecodable
+            qfile_fault = "bad-utf8"
+            i = rng.randrange(len(raw) + 1)
+            raw = raw[:i] + rng.choice((b"\xff", b"\xc3", b"\x80", b"\xe2\x82")) + raw[i:]
+            query_effective = None
+        elif 0.22 <= r2 < 0.26:
+            qfile_fault = "bom"
+            raw = b"\xef\xbb\xbf" + raw
+            query_effective = "\ufeff" + (pad_l + body + pad_r)
+            query_effective = query_effective.strip()
+        files["/q.jsonpath"] = raw
         argv += ["-r", "/q.jsonpath"]
     channel = rng.choice(("-f", "-f -", "stdin"))
     stdin_bytes = b""
@@ -437,7 +456,7 @@ def run_one(seed: int, tier: str, index: int) -> Dict[str, Any]:
     st["short_read_runs"] += bool(sc["chunks"])
     st["probe_short_read_split_multibyte"] += 1 if obs["split_multibyte"] else 0
     if sc["qfile_fault"] != "none":
-        st["fault_queryfile_truncated"] += 1
+        st[f"fault_queryfile_{sc['qfile_fault']}"] += 1
     if ref["expect"] == "fail" and ref["phase"] == "evaluate":
         st["probe_evaluation_error"] += 1
     if sc["fault"] in ("byteflip", "bitflip") and ref["expect"] == "ok":
